@@ -957,11 +957,13 @@ WAI_TYPES = ['MASS', 'HEAT', 'COM1', 'COM2', 'WATE', 'AIR ', 'DELV', 'DELG', 'DE
 WAI_UNSUPPORTED = ['CO2 ', 'FEED', 'HLOS', 'MAKE', 'POWR', 'TOST', 'VOL.', 'WBRE', 'WFLO', 'XIN2']
 
 
-def wai_case(rng):
-    geo = rand_geo(rng)
-    if rng.random() < 0.3:
-        geo['dx'] = [rng.choice([5., 10.]) for _ in range(rng.randint(1, 4))]
-        geo['dz'] = [rng.choice([2., 5.]) for _ in range(rng.randint(1, 4))]
+def wai_case(rng, geo=None):
+    """geo given: a case on that geometry (sequence facet); the draws of the plain stream are unchanged"""
+    if geo is None:
+        geo = rand_geo(rng)
+        if rng.random() < 0.3:
+            geo['dx'] = [rng.choice([5., 10.]) for _ in range(rng.randint(1, 4))]
+            geo['dz'] = [rng.choice([2., 5.]) for _ in range(rng.randint(1, 4))]
     blocks, cons = geo_names(geo)
     nr = rng.choice([1, 2, 3])
     case = {'geo': geo, 'rocks': ['rock%d' % i for i in range(nr)], 'assign': [rng.randrange(nr) for _ in blocks]}
@@ -1015,12 +1017,20 @@ def wai_case(rng):
     return case
 
 
-def wai_build(case):
+def wai_install(d, case, geo=None, keep=None, vol0=None):
+    """put the whole content of a Waiwera case into the data object d -- a new one, or one that held (and exported) another
+    model before.  Everything a case determines is (re)set, so that afterwards d has the same public content as a new object
+    given the same case.  keep = (geo object, {block: volume as made by fromgeo}): the grid of d was made from that very
+    geometry and is edited in place instead of being replaced; vol0: dict that receives those volumes when a grid is made"""
     import t2data as T, t2grids
-    geo = make_geo(case['geo'])
-    d = T.t2data()
+    if keep is not None:
+        geo, vol0 = keep
+        for blk in d.grid.blocklist: blk.volume = vol0[blk.name]
+    else:
+        if geo is None: geo = make_geo(case['geo'])
+        d.grid = quiet(t2grids.t2grid().fromgeo, geo)
+        if vol0 is not None: vol0.update((blk.name, blk.volume) for blk in d.grid.blocklist)
     d.title = 'c20 waiwera'; d.filename = 'model.dat'
-    d.grid = quiet(t2grids.t2grid().fromgeo, geo)
     d.grid.rocktypelist = []; d.grid.rocktype = {}
     for n in case['rocks']:
         d.grid.add_rocktype(t2grids.rocktype(name=n))
@@ -1033,8 +1043,18 @@ def wai_build(case):
     d.parameter['default_incons'] = list(case['incons'])
     if case['eos']['name'] == 'EWTD' or 'EWTD' in case['simulator'] or any(v == 'EWTD' for _, v in case['multi']) or case['eos']['arg'] == 'EWTD':
         d.diffusion = [[-1.e-6, -1.e-6], [-1.e-6, -1.e-6]]
+    else:
+        d.diffusion = []
+    d.clear_generators()
     for spec in case['gens']:
         d.add_generator(mk_gen(T, spec))
+    return geo
+
+
+def wai_build(case):
+    import t2data as T
+    d = T.t2data()
+    geo = wai_install(d, case)
     return geo, d
 
 
@@ -1042,57 +1062,78 @@ def exc_name(e):
     return type(e).__name__
 
 
-def wai_real(case):
+WAI_CALLS = ['eos', 'rocks', 'src', 'faces', 'full']
+
+
+def wai_real(case, calls=None):
     """run the pieces of the export on the real code; canonical observations"""
     geo, d = wai_build(case)
-    obs = {}
+    return (geo, d) + wai_observe(case, geo, d, calls)
+
+
+def wai_observe(case, geo, d, calls=None):
+    """the export calls on the data object d holding the case (calls: the order they are made in; default WAI_CALLS)"""
+    obs = {'faces': None}
     arg = case['eos']['arg']
-    try:
-        j, tr = quiet(d.eos_json, arg)
-        obs['eos'] = 'ok %s %d' % (eS(j['eos']['name']), 1 if tr else 0)
-        eosname = j['eos']['name']
-    except Exception as e:
-        obs['eos'] = 'exc ' + exc_name(e); eosname = 'we'
-    try:
-        j = quiet(d.rocks_json, geo, case['atmos_volume'], 'xyz')
-        cells = [t['cells'] for t in j['rock']['types']]
-        obs['rocks'] = 'ok ' + eL(lambda c: eL(lambda i: 'i%d' % int(i), c), cells)
-    except Exception as e:
-        obs['rocks'] = 'exc ' + exc_name(e)
-    try:
-        j = quiet(d.generators_json, geo, eosname)
-        src = j.get('source', [])
-        obs['src'] = 'ok ' + eL(lambda s: eS(s['name']) + ' ' + ('n' if s['cell'] is None else 'i%d' % int(s['cell'])), src)
-    except Exception as e:
-        obs['src'] = 'exc ' + exc_name(e)
-    obs['bdy'] = 'ok ' + eL(eS, [b.name for b in d.grid.blocklist if not (0. < b.volume < case['atmos_volume'])])
-    # boundary faces, block by block: boundary conditions with a different pressure for every block, so that the
-    # "collapse equal boundaries" pass leaves one entry per boundary block and the entry can be attributed
-    obs['faces'] = None
-    if case['atmos_volume'] <= 1.e25:
-        import t2incons
-        inc = t2incons.t2incon()
-        for k, blk in enumerate(d.grid.blocklist):
-            inc[blk.name] = [1.e5 + 8 * k, 20., 0.25, 0.0]
+    st = {'eosname': 'we', 'full': None, 'err': None}
+
+    def c_eos():
         try:
-            j = quiet(d.boundaries_json, geo, inc, case['atmos_volume'], 'we', 'xyz')
-            ent = []
-            for bc in j['boundaries']:
-                k = int(round((float(bc['primary'][0]) - 1.e5) / 8))
-                f = bc['faces']
-                cells = list(f['cells']) if isinstance(f, dict) else [c for x in f for c in x['cells']]
-                ent.append((d.grid.blocklist[k].name, sorted(int(c) for c in cells)))
-            obs['faces'] = ('ok', ent)
+            j, tr = quiet(d.eos_json, arg)
+            obs['eos'] = 'ok %s %d' % (eS(j['eos']['name']), 1 if tr else 0)
+            st['eosname'] = j['eos']['name']
         except Exception as e:
-            obs['faces'] = ('exc ' + exc_name(e), None)
-    # the whole export
-    try:
-        full = quiet(d.json, geo, 'mesh.exo', atmos_volume=case['atmos_volume'], eos=arg)
-        err = None
-    except Exception as e:
-        import traceback
-        full, err = None, (exc_name(e), [f.name for f in traceback.extract_tb(e.__traceback__)][-1], str(e)[:80])
-    return geo, d, obs, full, err
+            obs['eos'] = 'exc ' + exc_name(e); st['eosname'] = 'we'
+
+    def c_rocks():
+        try:
+            j = quiet(d.rocks_json, geo, case['atmos_volume'], 'xyz')
+            cells = [t['cells'] for t in j['rock']['types']]
+            obs['rocks'] = 'ok ' + eL(lambda c: eL(lambda i: 'i%d' % int(i), c), cells)
+        except Exception as e:
+            obs['rocks'] = 'exc ' + exc_name(e)
+
+    def c_src():
+        try:
+            j = quiet(d.generators_json, geo, st['eosname'])
+            src = j.get('source', [])
+            obs['src'] = 'ok ' + eL(lambda s: eS(s['name']) + ' ' + ('n' if s['cell'] is None else 'i%d' % int(s['cell'])), src)
+        except Exception as e:
+            obs['src'] = 'exc ' + exc_name(e)
+
+    def c_faces():
+        # boundary faces, block by block: boundary conditions with a different pressure for every block, so that the
+        # "collapse equal boundaries" pass leaves one entry per boundary block and the entry can be attributed
+        if case['atmos_volume'] <= 1.e25:
+            import t2incons
+            inc = t2incons.t2incon()
+            for k, blk in enumerate(d.grid.blocklist):
+                inc[blk.name] = [1.e5 + 8 * k, 20., 0.25, 0.0]
+            try:
+                j = quiet(d.boundaries_json, geo, inc, case['atmos_volume'], 'we', 'xyz')
+                ent = []
+                for bc in j['boundaries']:
+                    k = int(round((float(bc['primary'][0]) - 1.e5) / 8))
+                    f = bc['faces']
+                    cells = list(f['cells']) if isinstance(f, dict) else [c for x in f for c in x['cells']]
+                    ent.append((d.grid.blocklist[k].name, sorted(int(c) for c in cells)))
+                obs['faces'] = ('ok', ent)
+            except Exception as e:
+                obs['faces'] = ('exc ' + exc_name(e), None)
+
+    def c_full():
+        # the whole export
+        try:
+            st['full'] = quiet(d.json, geo, 'mesh.exo', atmos_volume=case['atmos_volume'], eos=arg)
+        except Exception as e:
+            import traceback
+            st['err'] = (exc_name(e), [f.name for f in traceback.extract_tb(e.__traceback__)][-1], str(e)[:80])
+
+    table = {'eos': c_eos, 'rocks': c_rocks, 'src': c_src, 'faces': c_faces, 'full': c_full}
+    for c in (calls or WAI_CALLS):
+        table[c]()
+    obs['bdy'] = 'ok ' + eL(eS, [b.name for b in d.grid.blocklist if not (0. < b.volume < case['atmos_volume'])])
+    return obs, st['full'], st['err']
 
 
 def wai_requests(case, geo, d):
@@ -1197,6 +1238,152 @@ def oracle_waiwera(case, geo, d, full, err, faces=None):
             if s['cell'] != want:
                 out.append(VW('source-cell', 'source %r of generator %s:%s has cell %r, its block is cell %r' % (s['name'], g.block, g.name, s['cell'], want), case)); break
     return out
+
+
+# ------------------------------------------------------------------ Waiwera export: sequences on ONE data object (hidden state)
+#
+# A sequence is a list of complete Waiwera cases ("steps").  ONE t2data object receives the content of step 0 and is
+# exported, then receives the content of step 1 (grid replaced by t2grid().fromgeo(other geometry) -- a sub-grid, a larger
+# grid, another atmosphere type / block order --, or the same grid edited in place) and is exported again, and so on.  Each
+# export is judged (a) by the same independent oracle as a single export (rock-cell partition, source cells, boundary
+# faces, EOS) and (b) against the export of a NEW data object given the content of that step alone: the public content of
+# the two objects is the same, so the exports must be the same JSON structure.
+
+SEQ_DATA_KEYS = ['atmos_volume', 'eos', 'simulator', 'multi', 'incons']
+
+
+def seq_next_geo(rng, g):
+    """a geometry related to g the way a re-gridded / re-exported model is"""
+    kind = rng.choice(['sub', 'sub', 'super', 'super', 'atm', 'order', 'same', 'same', 'random'])
+    h = copy.deepcopy(g)
+    if kind == 'sub':
+        for ax in ('dx', 'dy', 'dz'):
+            if len(h[ax]) > 1 and rng.random() < 0.6:
+                n = rng.randint(1, len(h[ax]) - 1)
+                h[ax] = h[ax][:n] if rng.random() < 0.7 else h[ax][-n:]
+        if h == g: kind = 'super'
+    if kind == 'super':
+        cap = {'dx': 5, 'dy': 3, 'dz': 4}
+        for ax in ('dx', 'dy', 'dz'):
+            if len(h[ax]) < cap[ax] and (rng.random() < 0.6 or ax == 'dx'):
+                h[ax] = h[ax] + [rng.choice(h[ax]) for _ in range(rng.randint(1, min(2, cap[ax] - len(h[ax]))))]
+    elif kind == 'atm':
+        h['atm'] = rng.choice([a for a in (0, 1, 2) if a != g['atm']])
+    elif kind == 'order':
+        h['order'] = rng.choice([o for o in (None, 'layer_column', 'dmplex') if o != g['order']])
+    elif kind == 'random':
+        h = rand_geo(rng)
+    if kind in ('sub', 'super') and rng.random() < 0.3:
+        h['atm'] = rng.choice([0, 1, 2])
+    return kind, h
+
+
+def wai_seq_case(rng):
+    """2..4 steps; the data-level settings (EOS source, simulator, MULTI, primaries, atmosphere volume) are those of step 0
+    unless a step draws its own"""
+    first = wai_case(rng)
+    if rng.random() < 0.7:
+        # most sequences inside the property: EOS named explicitly, all primaries, default atmosphere volume
+        name = rng.choice(list(EOS_TABLE))
+        first['eos'] = {'mode': 'explicit', 'name': name, 'arg': name}
+        first['incons'] = [1.e5, 20., 0.25, 0.0]; first['atmos_volume'] = 1.e25
+        first['multi'] = []; first['simulator'] = rng.choice(['', 'AUTOUGH2.2EW'])
+    steps = [first]
+    for k in range(rng.choice([1, 1, 2, 3])):
+        prev = steps[-1]
+        kind, g = seq_next_geo(rng, prev['geo'])
+        st = wai_case(rng, geo=g)
+        if rng.random() < 0.8:
+            for key in SEQ_DATA_KEYS: st[key] = copy.deepcopy(prev[key])
+        if rng.random() < 0.5:
+            # generators "re-pointed": the same names and types, blocks of the new grid
+            blocks, _ = geo_names(g)
+            st['gens'] = [(gid, rng.choice(blocks + ['zzz 9']) if b not in blocks else b, n, t, p) for gid, b, n, t, p in prev['gens']]
+        st['wf_gens'] = not any(t in WAI_UNSUPPORTED for _, _, _, t, _ in st['gens'])
+        st['kind'] = kind
+        st['keep_grid'] = (g == prev['geo']) and rng.random() < 0.6
+        steps.append(st)
+    for st in steps:
+        st['calls'] = rng.sample(WAI_CALLS, len(WAI_CALLS)) if rng.random() < 0.4 else list(WAI_CALLS)
+    return {'steps': steps}
+
+
+def canon_json(x):
+    """JSON structure of an export: numpy scalars / arrays and tuples become plain numbers / lists"""
+    import numpy as np
+    if isinstance(x, dict): return {str(k): canon_json(v) for k, v in x.items()}
+    if isinstance(x, (list, tuple, np.ndarray)): return [canon_json(v) for v in x]
+    if isinstance(x, np.generic): return x.item()
+    return x
+
+
+def json_diff(a, b, path='', out=None):
+    """paths at which two canonical JSON structures differ (first few)"""
+    out = [] if out is None else out
+    if len(out) >= 4: return out
+    if isinstance(a, dict) and isinstance(b, dict):
+        for k in sorted(set(a) | set(b)):
+            if k not in a or k not in b: out.append('%s/%s only in the %s export' % (path, k, 'reused' if k in a else 'fresh'))
+            else: json_diff(a[k], b[k], path + '/' + k, out)
+    elif isinstance(a, list) and isinstance(b, list):
+        if len(a) != len(b): out.append('%s: %d item(s) reused, %d fresh' % (path, len(a), len(b)))
+        else:
+            for i, (x, y) in enumerate(zip(a, b)): json_diff(x, y, '%s[%d]' % (path, i), out)
+    elif type(a) != type(b) or (a != b and not (isinstance(a, float) and a != a and b != b)):
+        out.append('%s: %r reused, %r fresh' % (path, a, b))
+    return out
+
+
+def VS(key, what, seq, k):
+    return dict(key=key, what='export %d of %d on one data object (%s): %s'
+                % (k + 1, len(seq['steps']), ' -> '.join('%dx%dx%d atm%d' % (len(s['geo']['dx']), len(s['geo']['dy']), len(s['geo']['dz']), s['geo']['atm'])
+                                                         for s in seq['steps'][:k + 1]), what),
+                case={'waiwera_seq': seq, 'step': k})
+
+
+def run_wai_seq(seq, upto=None):
+    """the sequence on the real code.  -> (violations, per-step info)"""
+    import t2data as T
+    d = T.t2data()
+    geos = {}             # geometry objects of this sequence: an unchanged geometry is the same object in the next step
+    viol, info = [], []
+    prev = None
+    for k, st in enumerate(seq['steps']):
+        if upto is not None and k > upto: break
+        gkey = json.dumps(st['geo'], sort_keys=True)
+        if st.get('keep_grid') and prev is not None and prev[0] == gkey:
+            geo = wai_install(d, st, keep=(prev[1], prev[2]))
+        else:
+            vol0 = {}
+            geo = wai_install(d, st, geo=geos.get(gkey), vol0=vol0)
+            geos[gkey] = geo
+            prev = (gkey, geo, vol0)
+        obs, full, err = wai_observe(st, geo, d, st['calls'])
+        # (a) the independent oracle of a single export
+        for v in oracle_waiwera(st, geo, d, full, err, obs['faces']):
+            viol.append(VS(v['key'], v['what'], seq, k))
+        # (b) a new data object with the same content
+        geo2, d2, obs2, full2, err2 = wai_real(st, st['calls'])
+        same = True
+        for part in ('eos', 'rocks', 'src', 'bdy', 'faces'):
+            if obs.get(part) != obs2.get(part):
+                same = False
+                viol.append(VS('sequence-export-differs-from-fresh:' + part,
+                               '%s on the re-used object gives %s, on a new object with the same content %s'
+                               % ({'eos': 'eos_json', 'rocks': 'rocks_json (cells)', 'src': 'generators_json (name, cell)', 'bdy': 'boundary blocks',
+                                   'faces': 'boundaries_json (block, face cells)'}[part], str(obs.get(part))[:160], str(obs2.get(part))[:160]), seq, k))
+        if (err is None) != (err2 is None) or (err is not None and err[0] != err2[0]):
+            same = False
+            viol.append(VS('sequence-export-differs-from-fresh:json-outcome', 'json() on the re-used object: %s; on a new object with the same content: %s'
+                           % ('ok' if err is None else '%s in %s: %s' % err, 'ok' if err2 is None else '%s in %s: %s' % err2), seq, k))
+        elif err is None:
+            df = json_diff(canon_json(full), canon_json(full2))
+            if df:
+                same = False
+                viol.append(VS('sequence-export-differs-from-fresh:json', 'json() differs from the export of a new object with the same content at '
+                               + '; '.join(df)[:400], seq, k))
+        info.append({'same': same, 'err': err, 'obs': obs})
+    return viol, info
 
 
 # ------------------------------------------------------------------ history name lines (FOFT / COFT / GOFT)
@@ -1469,7 +1656,9 @@ def _run(ctx, scale=1.0, model=True):
                 '(initial state, operations) encodings; non-trivial = the operations changed at least one of multi/lineq/solver/MOP/rocks/'
                 'generators/lookup/short output/history lists or raised.  Waiwera cases = (rectangular geometry, rock assignment, special '
                 'volumes, EOS source, generators); non-trivial = at least one boundary block of non-default volume, or an EOS not given explicitly, '
-                'or a generator outside the grid/in the atmosphere')
+                'or a generator outside the grid/in the atmosphere.  Waiwera sequences = 2..4 Waiwera cases installed one after the other on ONE '
+                'data object (grid replaced by a sub-grid / larger grid / other atmosphere type or block order, or edited in place) with every '
+                'export compared with that of a new object; non-trivial = the geometry changes at least once')
     use_model = model and ctx.model_ok
     fc, ff, fh, fsl = res.facet('convert'), res.facet('convert_file'), res.facet('history_lines'), res.facet('short_lines')
     fe, fr, fs, fb, fw = res.facet('waiwera_eos'), res.facet('waiwera_rocks'), res.facet('waiwera_sources'), res.facet('waiwera_boundary'), res.facet('waiwera_faces')
@@ -1591,6 +1780,23 @@ def _run(ctx, scale=1.0, model=True):
             lines.append(rq['faces']); expect.append(('waiwera_faces', exp, {'waiwera': case}, None))
         if res.evaluations % 300 == 2:
             res.sample({'waiwera': True, 'eos': case['eos'], 'simulator': case['simulator'], 'observed': {k: str(v)[:80] for k, v in obs.items()}})
+    # Waiwera, sequences of exports on one data object
+    fq = res.facet('waiwera_sequence')
+    rng = ctx.rng('waiwera_seq')
+    for k in range(int(ctx.n(240, 5000) * scale)):
+        seq = wai_seq_case(rng)
+        viol, info = run_wai_seq(seq)
+        res.violations += viol
+        res.count('seq-length:%d' % len(seq['steps']))
+        for st, inf in zip(seq['steps'], info):
+            fq['cases'] += 1
+            res.evaluations += 1
+            if 'kind' in st:
+                res.count('seq-step:' + st['kind'] + ('+in-place' if st['keep_grid'] else ''))
+                res.count('seq-json:' + ('ok' if inf['err'] is None else inf['err'][0] + ':' + inf['err'][1]))
+            res.count('seq-calls:' + ('default' if st['calls'] == WAI_CALLS else 'shuffled'))
+        if any(st['geo'] != seq['steps'][0]['geo'] for st in seq['steps'][1:]):
+            res.distinct.add('waiseq|' + json.dumps(seq, sort_keys=True))
     # model
     if use_model:
         out = core.run_driver('drv_c20', lines)
@@ -1648,7 +1854,18 @@ def replay(ctx, payload):
     c = payload.get('case')
     if not c:
         return False, 'replay file names what no longer checks: %s' % payload.get('broken')
-    if 'waiwera' in c:
+    if 'waiwera_seq' in c:
+        seq = c['waiwera_seq']
+        for st in seq['steps']:
+            st['multi'] = [tuple(x) for x in st['multi']]
+            st['gens'] = [tuple(x) for x in st['gens']]
+        viol, info = run_wai_seq(seq, upto=c.get('step'))
+        if c.get('step') is not None:
+            viol = [v for v in viol if v['case']['step'] == c['step']] or viol
+        txt = '%d export(s) on one t2data object: %s' % (len(info), '; '.join(
+            'export %d json() %s, rocks %s, sources %s' % (i + 1, 'ok' if x['err'] is None else x['err'], x['obs'].get('rocks', '')[:80], x['obs'].get('src', '')[:80])
+            for i, x in enumerate(info)))
+    elif 'waiwera' in c:
         case = c['waiwera']
         case['multi'] = [tuple(x) for x in case['multi']]
         case['gens'] = [tuple(x) for x in case['gens']]
